@@ -73,7 +73,7 @@ CHECKS = {
         note=TB),
     "C18": dict(
         cat="exploration", ref="DESIGN.md §4.8", engine="task-scheduler",
-        technique="deterministic simulation: seeded scheduler deciding every context switch at statement-level yield points injected by overlay; sequential-equivalence, exactly-once and race-detector oracles under the same schedules",
+        technique="deterministic simulation: seeded scheduler deciding every context switch at statement-level yield points injected by overlay (2-129 tasks sharing points, scalars, field elements, byte buffers and term slices; cold processes and seeded pre-rolls); sequential-equivalence, per-task exactly-once and race-detector oracles under the same schedules",
         text="Real goroutines whose interleaving is decided by a seeded scheduler (random, PCT-style and sync-focused policies) at statement granularity and "
              "between the atomic operations of one statement (yield points spliced into a build-time copy of both packages; blocking of sync.Once/Mutex/RWMutex "
              "simulated incl. writer preference), 2-8 tasks running operations from the whole API from a cold process, default and purego builds: results equal "
